@@ -1,2 +1,241 @@
+"""C03 deep rule R3: the typing rule of every operator = constructor (formula.py) composed with the
+type-checker handler (type_checker.py), interpreted on operands of representative sorts (symbolic
+bit-widths, symbolic index payloads) and compared with the signature table (refsem.result_sort) for
+every small value of the symbolic widths / indices: well-sorted applications must be accepted with
+the right sort, ill-sorted ones must raise."""
+import itertools
+
+from ..common import get_repo, get_ops, parallel_map
+from .. import proc, refsem
+from ..proc import Shape, S, BOOL, INT, REAL
+from .. import simpcheck as sc
+from ..absint import Interp, Explorer, Unsupported, AbsRaise, SymInt, eval_term, term_str
+from ..world import World
+
+STRING = ("STRING",)
+BVW, BVV = ("BV", "W"), ("BV", "V")
+ARR = ("ARRAY", INT, INT)
+ARRB = ("ARRAY", INT, BOOL)
+FUN = ("FUN", INT, (INT,))
+CUS = ("CUSTOM", "U")
+SORTS = [BOOL, INT, REAL, STRING, BVW, BVV, ARR, ARRB, FUN, CUS]
+
+# constructor, operator built, arity (or list of arities), extra python parameters (name -> kind)
+CTORS = [
+    ("And", "AND", [2, 3]), ("Or", "OR", [2, 3]), ("Not", "NOT", 1), ("Implies", "IMPLIES", 2), ("Iff", "IFF", 2),
+    ("Plus", "PLUS", [2, 3]), ("Minus", "MINUS", 2), ("Times", "TIMES", [2, 3]), ("Div", "DIV", 2),
+    ("LE", "LE", 2), ("LT", "LT", 2), ("Equals", "EQUALS", 2), ("Ite", "ITE", 3), ("ToReal", "TOREAL", 1),
+    ("BVNot", "BV_NOT", 1), ("BVNeg", "BV_NEG", 1), ("BVAnd", "BV_AND", 2), ("BVOr", "BV_OR", 2), ("BVXor", "BV_XOR", 2),
+    ("BVAdd", "BV_ADD", 2), ("BVSub", "BV_SUB", 2), ("BVMul", "BV_MUL", 2), ("BVUDiv", "BV_UDIV", 2),
+    ("BVURem", "BV_UREM", 2), ("BVSDiv", "BV_SDIV", 2), ("BVSRem", "BV_SREM", 2), ("BVLShl", "BV_LSHL", 2),
+    ("BVLShr", "BV_LSHR", 2), ("BVAShr", "BV_ASHR", 2), ("BVULT", "BV_ULT", 2), ("BVULE", "BV_ULE", 2),
+    ("BVSLT", "BV_SLT", 2), ("BVSLE", "BV_SLE", 2), ("BVComp", "BV_COMP", 2), ("BVConcat", "BV_CONCAT", 2),
+    ("BVToNatural", "BV_TONATURAL", 1),
+    ("StrLength", "STR_LENGTH", 1), ("StrConcat", "STR_CONCAT", [2, 3]), ("StrContains", "STR_CONTAINS", 2),
+    ("StrIndexOf", "STR_INDEXOF", 3), ("StrReplace", "STR_REPLACE", 3), ("StrSubstr", "STR_SUBSTR", 3),
+    ("StrPrefixOf", "STR_PREFIXOF", 2), ("StrSuffixOf", "STR_SUFFIXOF", 2), ("StrToInt", "STR_TO_INT", 1),
+    ("IntToStr", "INT_TO_STR", 1), ("StrCharAt", "STR_CHARAT", 2),
+    ("Select", "ARRAY_SELECT", 2), ("Store", "ARRAY_STORE", 3),
+]
+INDEXED = [("BVExtract", "BV_EXTRACT", ["start", "end"]), ("BVRol", "BV_ROL", ["steps"]), ("BVRor", "BV_ROR", ["steps"]),
+           ("BVZExt", "BV_ZEXT", ["increase"]), ("BVSExt", "BV_SEXT", ["increase"])]
+
+# documented extensions of pySMT w.r.t. the SMT-LIB signatures
+def expected(op, sorts, payload):
+    if op == "TOREAL" and list(sorts) == [REAL]:
+        return REAL            # ToReal of a Real term is the term itself (documented)
+    if op == "POW":
+        return REAL if len(sorts) == 2 and sorts[0] == sorts[1] and sorts[0] in (INT, REAL) else None
+    return refsem.result_sort(op, list(sorts), payload)
+
+
+def conc(sort, asg):
+    return sc.sort_conc(sc._sort_sym(sort), asg) if False else _conc(sort, asg)
+
+
+def _conc(sort, asg):
+    if sort[0] == "BV":
+        return ("BV", asg[sort[1]] if isinstance(sort[1], str) else sort[1])
+    if sort[0] == "ARRAY":
+        return ("ARRAY", _conc(sort[1], asg), _conc(sort[2], asg))
+    if sort[0] == "FUN":
+        return ("FUN", _conc(sort[1], asg), tuple(_conc(s, asg) for s in sort[2]))
+    return sort
+
+
+def _pow_job(job):
+    ctor, op, (base, exp), _ = job
+
+    def one(ex):
+        it = Interp(ex)
+        w = World().attach(it)
+        stc = w.new_walker("pysmt.type_checker.SimpleTypeChecker", w.env)
+        node = w.app("Pow", w.symbol("t0", base), sc.build(w, exp, []))
+        return (w, node, it.call(it.getattr(stc, "get_type"), [node]))
+    paths = Explorer(max_paths=20).run(one)
+    sorts = (base, exp[2])
+    exp_sort = expected("POW", sorts, None)
+    for p in paths:
+        if p.kind == "unsupported":
+            return [(ctor, op, sorts, "unsupported", str(p.value))]
+        got = None
+        if p.kind == "return":
+            w, node, t = p.value
+            got = w.sort_of_tyobj(t) if t is not None else None
+        if exp_sort is None and got is not None:
+            return [(ctor, op, sorts, "accepts-ill-typed", "Pow(%s, %s constant) is accepted with type %s; the application "
+                     "is ill-sorted" % (_s(base), _s(exp[2]), _s(got)))]
+        if exp_sort is not None and got is None:
+            return [(ctor, op, sorts, "rejects-well-typed", "Pow(%s, %s constant) is rejected" % (_s(base), _s(exp[2])))]
+        if exp_sort is not None and got != exp_sort:
+            return [(ctor, op, sorts, "wrong-type", "Pow(%s, %s) typed %s" % (_s(base), _s(exp[2]), _s(got)))]
+    return [(ctor, op, sorts, "valid", "1")]
+
+
+def _job(job):
+    ctor, op, sorts, params = job
+    if params == "pow":
+        return _pow_job(job)
+    names = ["t%d" % i for i in range(len(sorts))]
+
+    def one(ex):
+        it = Interp(ex)
+        w = World().attach(it)
+        stc = w.new_walker("pysmt.type_checker.SimpleTypeChecker", w.env)
+        args = [w.symbol(n, sc._sort(w, s)) for n, s in zip(names, sorts)]
+        kw = dict((p, w.var(p, "idx")) for p in params)
+        node = w.app(ctor, *args, **kw)
+        if not w.is_node(node):
+            raise Unsupported("constructor returned %r" % (node,))
+        t = it.call(it.getattr(stc, "get_type"), [node])
+        return (w, node, t)
+    try:
+        paths = Explorer(max_paths=200).run(one)
+    except Unsupported as e:
+        return [(ctor, op, sorts, "unsupported", str(e))]
+    wvars = sorted(set(s[1] for s in sorts if s[0] == "BV" and isinstance(s[1], str)))
+    out = []
+    n_ok = 0
+    for wv in itertools.product([1, 2, 3], repeat=len(wvars)):
+        base = dict(zip(wvars, wv))
+        maxw = max(wv) if wv else 2
+        for pv in itertools.product(range(-1, maxw + 3), repeat=len(params)):
+            asg = dict(base)
+            asg.update(zip(params, pv))
+            cs = [_conc(s, asg) for s in sorts]
+            payload = None
+            if op == "BV_EXTRACT":
+                payload = (asg["start"], asg["end"])
+            elif params:
+                payload = (asg[params[0]],)
+            try:
+                exp = expected(op, cs, payload)
+            except refsem.NoSemantics:
+                return [(ctor, op, sorts, "unsupported", "no signature for %s" % op)]
+            # which path does this assignment follow?
+            for p in paths:
+                try:
+                    if not sc.facts_hold(p.facts(), asg):
+                        continue
+                except KeyError:
+                    continue
+                if p.kind == "unsupported":
+                    return [(ctor, op, sorts, "unsupported", str(p.value))]
+                if p.kind == "raise":
+                    got = None
+                    how = p.value.cls_name
+                else:
+                    w, node, t = p.value
+                    try:
+                        got = sc.sort_conc(w.sort_of_tyobj(t), asg) if t is not None else None
+                    except Exception as e:
+                        return [(ctor, op, sorts, "unsupported", "type object %r" % (t,))]
+                    how = "accepted" if got is not None else "get_type returned None"
+                    if t is not None and w.opname(node) != op and exp is None:
+                        # the constructor rewrote the application into something else that is well typed
+                        how = "rewritten to %s" % w.opname(node)
+                if exp is None and got is not None:
+                    out.append((ctor, op, sorts, "accepts-ill-typed",
+                                "%s(%s)%s is accepted with type %s; the application is ill-sorted"
+                                % (ctor, ", ".join(map(_s, cs)), (" %s" % dict(zip(params, pv))) if params else "", _s(got))))
+                elif exp is not None and got is None:
+                    out.append((ctor, op, sorts, "rejects-well-typed",
+                                "%s(%s)%s is rejected (%s); it is well-sorted with sort %s"
+                                % (ctor, ", ".join(map(_s, cs)), (" %s" % dict(zip(params, pv))) if params else "", how, _s(exp))))
+                elif exp is not None and got != exp:
+                    out.append((ctor, op, sorts, "wrong-type",
+                                "%s(%s)%s gets type %s, the typing rule gives %s"
+                                % (ctor, ", ".join(map(_s, cs)), (" %s" % dict(zip(params, pv))) if params else "", _s(got), _s(exp))))
+                else:
+                    n_ok += 1
+                break
+    if out:
+        # one report per (kind) is enough
+        seen = set()
+        res = []
+        for o in out:
+            if o[3] not in seen:
+                seen.add(o[3])
+                res.append(o)
+        return res
+    return [(ctor, op, sorts, "valid", "%d value assignments" % n_ok)]
+
+
+def _s(sort):
+    if sort is None:
+        return "None"
+    if sort[0] == "BV":
+        return "BV%s" % sort[1]
+    if sort[0] == "ARRAY":
+        return "Array(%s,%s)" % (_s(sort[1]), _s(sort[2]))
+    if sort[0] == "FUN":
+        return "Fun"
+    if sort[0] == "CUSTOM":
+        return "U"
+    return sort[0].title()
+
+
+def jobs(tier):
+    out = []
+    for ctor, op, ar in CTORS:
+        for n in (ar if isinstance(ar, list) else [ar]):
+            if n <= 2:
+                combos = itertools.product(SORTS, repeat=n)
+            else:
+                # three operands: all triples over a reduced set, plus every sort in every position
+                red = [BOOL, INT, STRING, BVW, ARR] if tier == "thorough" else [BOOL, INT, BVW]
+                combos = set(itertools.product(red, repeat=3))
+                for s in SORTS:
+                    for base in itertools.product(red if tier == "thorough" else [BOOL, INT, STRING, ARR], repeat=2):
+                        combos.add((s,) + base)
+                        combos.add((base[0], s, base[1]))
+                        combos.add(base + (s,))
+                combos = sorted(combos)
+            for c in combos:
+                out.append((ctor, op, tuple(c), []))
+    for ctor, op, params in INDEXED:
+        for s in SORTS:
+            out.append((ctor, op, (s,), params))
+    for base, exp in ((BOOL, ("lit", True, BOOL)), (INT, ("lit", 2, INT)), (REAL, ("lit", 2, REAL)),
+                      (INT, ("lit", 2, REAL)), (STRING, ("lit", "a", STRING)), (REAL, ("lit", 2, INT))):
+        out.append(("Pow", "POW", (base, exp), "pow"))
+    return out
+
+
 def run(ctx):
-    pass
+    if not ctx.want("R3"):
+        return
+    rs = ctx.rule("R3", "typing rule (constructor o type-checker handler) equals the signature table")
+    js = jobs(ctx.tier)
+    ctx.analysed["typing_rule_instances"] = len(js)
+    for res in parallel_map(_job, js):
+        for ctor, op, sorts, kind, detail in res:
+            key = "%s|%s|%s" % (ctor, ",".join(_s(s) if not (s[0] == "BV") else "BV" + str(s[1]) for s in sorts), kind)
+            if kind == "valid":
+                rs.ok({"application": "%s(%s)" % (ctor, ", ".join(_s(s) if s[0] != "BV" else "BV_" + str(s[1]) for s in sorts)),
+                       "checked": detail})
+            elif kind == "unsupported":
+                rs.unrec("%s%s: %s" % (ctor, tuple(_s(s) for s in sorts), detail[:100]))
+            else:
+                ctx.finding(rs, key, detail, "pysmt/type_checker.py")
+    ctx.floor(rs, 2000)
